@@ -463,6 +463,7 @@ type WaitCase struct {
 	N0     int    `json:"n0"`     // events per partition before
 	Scen   string `json:"scen"`   // WsBefore | WsHeld | WsSleeping | WsLateFlush | WsNone
 	Chain  int    `json:"chain"`  // further back-to-back waits (each woken by a write while asleep)
+	Limit  int    `json:"limit"`  // page limit of the waiting request (0: 10); values above QueryMaxLimit are clamped by the server
 }
 
 const waitTimeoutS = 5
@@ -516,6 +517,9 @@ func runWait(srv *Server, wc WaitCase) ([]Case, error) {
 	next := r0.NextQueryRequest
 	next.WaitTimeout = waitTimeoutS
 	next.Limit = 10
+	if wc.Limit > 0 {
+		next.Limit = wc.Limit
+	}
 	var out []Case
 	written := wc.N0
 	tsrc := srcs[wc.Target]
@@ -667,6 +671,7 @@ func genWait(r *Rng) WaitCase {
 	if wc.Scen != "WsNone" {
 		wc.Chain = r.PickInt(0, 0, 1, 2, 3)
 	}
+	wc.Limit = r.PickInt(0, 0, 1, 10, 9999, 10000, 10001, 50000)
 	return wc
 }
 
